@@ -39,9 +39,10 @@ ArchCalls ==
 \* "arch3": three layers and three modules, calls alternating layer(..) / containing_modules(..) - all definitions
 \* with up to three layers (needed for guards that must look at EVERY earlier layer, not only the previous one)
 C3 == <<"r", "c">>
+C3s == <<"r", "c ">>       \* an opaque name token that differs from C3 by a trailing blank only: another name
 Arch3Calls(n) ==
     IF n % 2 = 0 THEN {[m |-> "layer", name |-> nm] : nm \in {"L1", "L2", "L3", "l1"}}      \* "l1": differs from "L1" in case only
-    ELSE {[m |-> "containing_modules", names |-> <<x>>, list |-> l] : x \in {A, B, C3}, l \in BOOLEAN}
+    ELSE {[m |-> "containing_modules", names |-> <<x>>, list |-> l] : x \in {A, B, C3, C3s}, l \in BOOLEAN}
              \cup {[m |-> "have_modules_with_names_matching", regex |-> <<"regex">>],
                    [m |-> "containing_modules", names |-> <<>>, list |-> TRUE]}
 
